@@ -38,6 +38,12 @@ MUT = [
     ("named-automatic-not-replaced", "mutation (second insertion under the same name)",
      [(DOC, "            existing = self.content.get_style(family, name)\n        else:\n            self._set_automatic_name(style, family)", "            existing = None\n        else:\n            self._set_automatic_name(style, family)")]),
     ("merge-moves-elements", "re-introduces F18", [(DOC, "            dest.append(style.clone)", "            dest.append(style)")]),
+    ("unique-name-cache", "history mutation (seeded C13-3: names cached at the first call; a style named like the next ta_N enters later)",
+     [(DOC, "        self.__body: Element | None = None\n        self.container: Container | None = None", "        self.__body: Element | None = None\n        self.__style_names: set | None = None\n        self.container: Container | None = None"),
+      (DOC, "        current = {style.name for style in self.get_styles()}\n        idx = 0\n        while True:\n            name = f\"{base}_{idx}\"\n            if name in current:\n                idx += 1\n                continue\n            return name",
+            "        if self.__style_names is None:\n            self.__style_names = {style.name for style in self.get_styles()}\n        current = self.__style_names\n        idx = 0\n        while True:\n            name = f\"{base}_{idx}\"\n            if name in current:\n                idx += 1\n                continue\n            current.add(name)\n            return name")]),
+    ("merge-duplicate-searched-in-destination-only", "cross-container mutation (seeded C13-4)",
+     [(DOC, "                duplicate = part.get_style(family, stylename)", "                duplicate = dest.get_style(family, stylename)")]),
     ("rewrite-auto-name-comprehension", "behaviour-preserving rewrite",
      [(DOC, '''        max_index = 0
         for existing_style in styles:
